@@ -182,6 +182,7 @@ def _h2(reuse_mod):
             COUNT["H2.reuse_hits"] += 1
             _STATE["last_hit_path"] = path
             t = tuple(res.transform)
+            LOG["reuse"].append([float(v) for v in t])
             from nanoemoji.fixed import MAX_FIXED, MIN_FIXED
 
             if not all(MIN_FIXED <= v <= MAX_FIXED for v in t):
@@ -200,7 +201,7 @@ def _h2(reuse_mod):
             if a and b:
                 nseg = geom.count_segments_svg_d(path)
                 H = geom.hausdorff(a, b, step=max(0.5, max(np.ptp(np.vstack(b), axis=0)) / 200))
-                allow = max(self._reuse_tolerance, 1e-3) * max(1, nseg) + 0.05
+                allow = 2.0 * max(self._reuse_tolerance, 1e-3) * (max(1, nseg) + 1) + 0.05
                 COUNT["H2.hausdorff_checked"] += 1
                 if H > allow:
                     _fail("H2", f"donor mapped by the reuse transform is {H:.3f} from the path (allowed {allow:.3f})", donor=donor, path=path, transform=t)
@@ -261,7 +262,7 @@ def _h3(wf):
             else:
                 if res is None:
                     _fail("H3", "no clip box although something is painted", want=box)
-                elif res[0] > box[0] + 0.5 + 1e-6 or res[1] > box[1] + 0.5 + 1e-6 or res[2] < box[2] - 0.5 - 1e-6 or res[3] < box[3] - 0.5 - 1e-6:
+                elif res[0] > box[0] + 1.0 + 1e-6 or res[1] > box[1] + 1.0 + 1e-6 or res[2] < box[2] - 1.0 - 1e-6 or res[3] < box[3] - 1.0 - 1e-6:
                     _fail("H3", "clip box does not contain the transformed control bounds", result=res, want=box, glyph=color_glyph.ufo_glyph_name)
                 elif quantize_factor > 1 and any(v % quantize_factor for v in res):
                     _fail("H3", "clip box edge not a multiple of the quantisation step", result=res, step=quantize_factor)
